@@ -38,7 +38,7 @@ def acc_lit(item):
 def run(ctx):
     ctx.rule = ("the REAL async stack (GeckoAsyncSpa connected through its real handshake to the in-process simulator under virtual time, real GeckoAsyncFacade) on 3-5 "
                 "shipped snapshots; random sequences of facade commands (pump modes incl. invalid ones, blower / light / eco on and off in every current state, target "
-                "temperatures, unit changes, watercare modes); the spa applies writes / key presses and echoes partial updates; per command: the datagrams that reached the "
+                "temperatures - random ones and a sweep over the 0.1 degF steps / representable Celsius readings of the whole range -, unit changes, watercare modes); the spa applies writes / key presses and echoes partial updates; per command: the datagrams that reached the "
                 "spa vs Model/Commands.exec on the client's block, and the read-back after the echo; non-trivial = command that emitted a datagram")
     ctx.prove(timeout=2400)
     rng = ctx.rng
@@ -47,7 +47,15 @@ def run(ctx):
     snaps = SNAPSHOTS if ctx.thorough else SNAPSHOTS[:3]
     ncmd = 40 if ctx.thorough else 16
 
-    async def scenario(loop, snap):
+    def sweep_plan():
+        # target temperatures across the whole range in both units: every 0.1 degF step the device can represent (quick: every third,
+        # from a random offset) and the representable Celsius readings
+        off = rng.randrange(3)
+        fs = [("target", (r + 320) / 10.0) for r in range(270 + (0 if ctx.thorough else off), 721, 1 if ctx.thorough else 3)]
+        cs = [("target", r / 18.0) for r in range(270 + off, 721, 9 if ctx.thorough else 27)]
+        return [("unit", False)] + fs + [("unit", True)] + cs
+
+    async def scenario(loop, snap, plan=()):
         from geckolib.const import GeckoConstants as K
         peer = session.Peer(loop, snap, echo_delay=0.2)
         cl = session.Client(peer)
@@ -68,11 +76,12 @@ def run(ctx):
         cctx = "(mkCtx %d %d %d)" % (spa.pack_type, spa.config_version, spa.log_version)
         ctr = [spa._protocol._sequence_counter_protocol, spa._protocol._sequence_counter_command]
         out = []
-        for n in range(ncmd):
+        for n in range(ncmd + len(plan)):
             blk = spa.struct.status_block
             ctr = [spa._protocol._sequence_counter_protocol, spa._protocol._sequence_counter_command]
             kinds = ["mode"] * 3 + ["turn"] * 4 + ["target", "unit", "wc"]
-            kind = rng.choice(kinds)
+            forced = plan[n - ncmd] if n >= ncmd else None
+            kind = forced[0] if forced else rng.choice(kinds)
             n0 = len(peer.raw)
             desc, ck, check = None, None, None
             watched = [k for k in list(spa.struct.user_demands) + ["SetpointG", "TempUnits"] if k in spa.accessors]
@@ -105,12 +114,15 @@ def run(ctx):
                 t = (r / 18.0) if unit == "C" else ((r + 320) / 10.0)
                 if rng.random() < 0.3:
                     t = round(t, 1)
+                if forced:
+                    t = forced[1]
                 ck = "SetTarget %s %s %s" % (acc_lit(items["SetpointG"]), "UC" if unit == "C" else "UF", cfloat(t))
                 desc = ("set_target_temperature", unit, t)
                 await f.water_heater.async_set_target_temperature(t)
-                check = None
+                # the client reads back the requested value: within one device step (0.1 degF, 1/18 degC)
+                check = (lambda t=t, unit=unit: abs(f.water_heater.target_temperature - t) < (0.1 if unit == "F" else 1 / 18.0) - 1e-9)
             elif kind == "unit":
-                cel = rng.random() < 0.5
+                cel = forced[1] if forced else rng.random() < 0.5
                 ck = "SetUnit %s %s" % (acc_lit(items["TempUnits"]), vf.cbool(cel))
                 desc = ("set_temperature_unit", "C" if cel else "F")
                 await f.water_heater.async_set_temperature_unit("°C" if cel else "°F")
@@ -144,8 +156,8 @@ def run(ctx):
         await cl.close()
         return out
 
-    for snap in snaps:
-        res = vloop.run(lambda loop: scenario(loop, snap))
+    for si, snap in enumerate(snaps):
+        res = vloop.run(lambda loop: scenario(loop, snap, sweep_plan() if si == ctx.seed % len(snaps) else ()))
         for r in res:
             exprs.append(r["expr"])
             meta.append({"snapshot": snap, "command": r["desc"], "datagrams": r["sent"]})
